@@ -271,14 +271,14 @@ func encDocs(ds []types.Map) []string {
 func SortKey(spec, d types.Map) string {
 	var ks []string
 	for f := range spec.Range() {
-		ks = append(ks, lib.EncodeVal(d.Get(f)))
+		ks = append(ks, lib.EncodeVal(Field(d, f)))
 	}
 	return strings.Join(ks, " ")
 }
 
 func tie(spec, x, y types.Map) bool {
 	for f := range spec.Range() {
-		if types.Compare(x.Get(f), y.Get(f)) != 0 {
+		if RCompare(Field(x, f), Field(y, f)) != 0 {
 			return false
 		}
 	}
@@ -296,7 +296,7 @@ func Classes(spec types.Map, ds []types.Map) [][]types.Map {
 		}
 	}
 	for _, c := range out {
-		sort.SliceStable(c, func(i, j int) bool { return types.Compare(c[i].Get(S("id")), c[j].Get(S("id"))) < 0 })
+		sort.SliceStable(c, func(i, j int) bool { return RCompare(Field(c[i], S("id")), Field(c[j], S("id"))) < 0 })
 	}
 	return out
 }
